@@ -3,6 +3,7 @@ import UtlsVerif.Drv.C24
 import UtlsVerif.Drv.C36
 import UtlsVerif.Drv.C04
 import UtlsVerif.Drv.C30
+import UtlsVerif.Drv.C08
 /-! `utlsmodel` — reads case lines on stdin, prints one verdict per line. Core Lean only. -/
 open Line
 
@@ -18,6 +19,7 @@ def dispatch (c : Case) : Verdict :=
   | "grease_quic" => Drv.C04.greaseQuic c
   | "prng" => Drv.C30.prng c
   | "prng_conc" => Drv.C30.prngConc c
+  | "ext" => Drv.C08.ext c
   | f => .bad s!"unknown family {f}"
 
 partial def loop (h : IO.FS.Stream) (out : IO.FS.Stream) : IO Unit := do
